@@ -237,7 +237,7 @@ def decorate(rng: random.Random, stmts: List[Dict[str, Any]], p_scalar: float = 
     for j in range(n_sc):
         ops = [rng.choice(scalars)] if scalars and rng.random() < 0.4 else []
         scalars.append(f"sc_{j + 1}")
-        stmts.append({"out": f"sc_{j + 1}", "pers": False, "kind": "sc", "ops": ops, "clause": None, "const": 2 + j})
+        stmts.append({"out": f"sc_{j + 1}", "pers": rng.random() < 0.3, "kind": "sc", "ops": ops, "clause": None, "const": 2 + j})
     for s in stmts:
         if s["kind"] != "ds":
             continue
@@ -272,14 +272,14 @@ def _init_worker():
     import vtlengine  # noqa
     from vtlengine import _verif
     from vtlengine.AST.DAG import DAGAnalyzer
-    orig = DAGAnalyzer._build_and_sort_graph
+    orig = DAGAnalyzer.visit_Start
 
-    def wrapped(self, error_op):
+    def wrapped(self, node):   # every DAGAnalyzer instance that visits a script (create_dag, ds_structure), in call order
         if type(self) is DAGAnalyzer:
             _CAP.append(self)
-        return orig(self, error_op)
+        return orig(self, node)
 
-    DAGAnalyzer._build_and_sort_graph = wrapped
+    DAGAnalyzer.visit_Start = wrapped
     _verif.sink = lambda kind, name, k, idx: _EVENTS.append((kind, name, k)) if kind in ("load", "exec", "release", "fetch") else None
     _ready = True
 
@@ -528,7 +528,7 @@ def permuted(rng: random.Random, stmts: List[Dict[str, Any]]) -> List[Dict[str, 
 
 
 def gen_shape_cases(rng: random.Random, tier: str, max_exh_quick: int = 4, max_exh_thorough: int = 6,
-                    sampled_quick: int = 700) -> List[Dict[str, Any]]:
+                    sampled_quick: int = 300) -> List[Dict[str, Any]]:
     """Exhaustive dependency shapes (upper-triangular patterns) x persistent masks x sampled input usage x one sampled
     textual permutation; beyond the exhaustive bound of the tier, sampled shapes."""
     cases: List[Dict[str, Any]] = []
@@ -598,11 +598,11 @@ def gen_graph_cases(rng: random.Random, tier: str) -> List[Dict[str, Any]]:
         for bits in range(1 << (n * n)):
             reads = [[j for j in range(n) if bits >> (i * n + j) & 1] for i in range(n)]
             mk(n, reads, [f"DS_{i + 1}" for i in range(n)], [bool((bits + i) % 3 == 0) for i in range(n)], "digraph")
-    for _ in range(4000 if tier == "thorough" else 250):
+    for _ in range(4000 if tier == "thorough" else 150):
         n = rng.randint(3, 4)
         reads = [[j for j in range(n) if rng.random() < 0.3] for i in range(n)]
         mk(n, reads, [f"DS_{i + 1}" for i in range(n)], [rng.random() < 0.3 for _ in range(n)], "digraph")
-    for _ in range(4000 if tier == "thorough" else 250):  # duplicated names
+    for _ in range(4000 if tier == "thorough" else 150):  # duplicated names
         n = rng.randint(2, 4)
         k = rng.randint(1, n - 1) if n > 1 else 1
         names = [f"DS_{rng.randint(1, k)}" for _ in range(n)]
@@ -662,11 +662,12 @@ def dag_tie(ctx, pool: "Pool", cases: List[Dict[str, Any]], tag: str) -> Dict[st
                 errs.append(f"statement {k + 1}: inputs {d['inputs']} vs model promote_impl {want}")
             if d["unknown"] != [nm.rev[x] for x in unk_m[k]]:
                 errs.append(f"statement {k + 1}: unknown_variables {d['unknown']} vs model {[nm.rev[x] for x in unk_m[k]]}")
-        if dag["vertex"] != {k + 1: rw[0] for k, rw in enumerate(raw)}:
-            errs.append(f"vertex {dag['vertex']}")
-        if [list(e) for e in edges_m] != dag["edges"]:
-            errs.append(f"edges {dag['edges']} vs model {edges_m}")
         eo = engine_outcome(o["outcome"])
+        if eo != "1-2-2":   # a duplicated assignment is rejected before vertex/edges are loaded
+            if dag["vertex"] != {k + 1: rw[0] for k, rw in enumerate(raw)}:
+                errs.append(f"vertex {dag['vertex']}")
+            if [list(e) for e in edges_m] != dag["edges"]:
+                errs.append(f"edges {dag['edges']} vs model {edges_m}")
         if OUTCOME[out_impl] != eo:
             errs.append(f"engine outcome {eo} vs outcome_impl {out_impl}")
         if out_impl != out_impl_raw:
@@ -821,10 +822,10 @@ def trace_tie(ctx, pool: "Pool", items: List[Dict[str, Any]], tag: str) -> Dict[
             stats["errors"][k] = stats["errors"].get(k, 0) + 1
             stats["failed_runs"].append((it, o))
             continue
-        if len(o["dags"]) != 2:
-            stats["broken"].append(f"{it['label']}: {len(o['dags'])} create_dag calls observed in run(), 2 expected")
+        if len(o["dags"]) < 2 or o["dags"][0]["sorting"] is None or o["dags"][1]["sorting"] is None:
+            stats["broken"].append(f"{it['label']}: {len(o['dags'])} DAG analyses observed in run(), expected create_ast's and run()'s create_dag first")
             continue
-        d0, d1 = o["dags"]
+        d0, d1 = o["dags"][0], o["dags"][1]
         sel = [d0["deps"][k - 1]["name"] for k in d0["sorting"]]
         if [d["name"] for d in d1["deps"]] != sel:
             stats["broken"].append(f"{it['label']}: second create_dag saw {[d['name'] for d in d1['deps']]}, first sorted to {sel}")
